@@ -250,6 +250,56 @@ def run_task(task):
     return d
 
 
+def run_other(task):
+    """what git hands to a pager besides diffs: blame and grep output (plain and coloured by git), under the callers
+    that make delta recognise it; law: one output row per input line, same visible text"""
+    name, caller, data, ovs = task
+    drv = explore.get_driver(caller=caller)
+    viols = []
+    n = 0
+    for label, ov in ovs:
+        o = base_opts(dict(ov))
+        o["color-only"] = True
+        args = build_args(o)
+        cid = drv.mkconfig(args)
+        r = drv.render1(cid, data)
+        drv.drop(cid)
+        n += 1
+        want = [term.strip(l.decode("utf-8", "replace")) for l in data.split(b"\n")[:-1]]
+        got = [row.text for row in term.decode(r.out)] if not r.panic else None
+        err = None
+        if got is None:
+            err = "panic: " + r.panic
+        elif len(got) != len(want):
+            err = "%d input lines, %d output rows" % (len(want), len(got))
+        else:
+            for a, b in zip(want, got):
+                if a.rstrip(" ") != b.rstrip(" "):
+                    err = "input line %r is shown as %r" % (a, b)
+                    break
+        if err:
+            v = explore.Violation("text-changed:" + name, err, data.split(b"\n")[:-1])
+            v.args = args
+            v.caller = caller
+            v.config_label = name + "," + label
+            viols.append(v)
+            break
+    return {"n": n, "violations": viols}
+
+
+H8 = [b"01234567", b"89abcdef"]
+OTHER = [
+    ("blame", ["git", "blame", "f.rs"],
+     b"".join(H8[i % 2] + b" (A U Thor 2020-01-0%d 00:00:00 +0000 %d) code %d\n" % (i + 1, i + 1, i) for i in range(4))),
+    ("blame-coloured", ["git", "blame", "--color-lines", "f.rs"],
+     H8[0] + b" (A U Thor 2020-01-01 00:00:00 +0000 1) x\n\x1b[36m" + H8[0] +
+     b" (A U Thor 2020-01-01 00:00:00 +0000 2)\x1b[m y\n" + H8[1] + b" (B 2021-01-01 00:00:00 +0000 3) z\n"),
+    ("grep", ["git", "grep", "-n", "x"], b"src/a.rs:7:fn x() {\nsrc/a.rs-8-  y\n--\nsrc/b.rs:1:x\n"),
+    ("grep-coloured", ["git", "grep", "-n", "x"],
+     b"\x1b[35msrc/a.rs\x1b[m\x1b[36m:\x1b[m\x1b[32m7\x1b[m\x1b[36m:\x1b[mfn \x1b[1;31mx\x1b[m() {\n"),
+]
+
+
 ASSUMPTIONS = [
     "producer: commit block + diffstat + file sections of 12 kinds x 5 hunk endings, in plain form "
     "and in an emulation of git's default colouring (C08 uses real git); plain `diff -u` files with and "
@@ -291,5 +341,11 @@ def main(tier):
             for src in ("diffu", "diffu_bare"):
                 tasks.append(((2 if tier == "quick" else 3, ["modified"], producers.BODY_KINDS, False, src), label, ov))
     cap = 45 if tier == "quick" else 900
+    ovs = [("default", {}), ("line-numbers", {"line-numbers": True}), ("side-by-side", {"side-by-side": True}),
+           ("hyperlinks", {"hyperlinks": True}), ("navigate", {"navigate": True})]
+    ores = explore.pmap(run_other, [(n_, c_, d_, ovs) for n_, c_, d_ in OTHER])
+    extra = [v for r in ores for v in r["violations"]]
     return runner.run_e1(PROP, tier, tasks, run_task, ASSUMPTIONS, cap,
-                         {"config_deviation_bound": d, "configurations": len(configs)})
+                         {"config_deviation_bound": d, "configurations": len(configs),
+                          "other_pager_inputs": [n_ for n_, _, _ in OTHER], "other_pager_input_renders": sum(r["n"] for r in ores)},
+                         extra_violations=extra)
